@@ -580,3 +580,39 @@ Lemma ex_redirect_to :
   router_match_rt (fun i => if i =? 0 then Some [110; 101; 119; 47; 60; 97; 62; 47; 120] else None) ex_map2 ex_adapter [47; 51; 47] GET
   = RedirectTo (HTTP ++ [COLON; SLASH; SLASH] ++ a_server ex_adapter ++ [47; 110; 101; 119; 47; 51; 47; 120]).
 Proof. vm_compute. reflexivity. Qed.
+
+(* ================================================================== the scheme of the build-based redirects
+   The alias redirect is MapAdapter.build(endpoint, values, method, force_external=True): ws / wss for a websocket rule,
+   http / https for any other, of the security (TLS or not) of the scheme the adapter is bound with - for the four
+   schemes an adapter is bound with, and never a downgrade from wss / https.  (The defaults redirect is
+   make_redirect_url: C12_websocket_redirect_scheme.)  The url_scheme argument of MapAdapter.build is not modelled:
+   the router does not pass it. *)
+Theorem build_scheme_table a ws_rule :
+  ((a_scheme a = HTTPS \/ a_scheme a = WSS) -> build_scheme a ws_rule = if ws_rule then WSS else HTTPS)
+  /\ ((a_scheme a = HTTP \/ a_scheme a = WS) -> build_scheme a ws_rule = if ws_rule then WS else HTTP).
+Proof. split; intros [E|E]; unfold build_scheme; rewrite E; destruct ws_rule; reflexivity. Qed.
+
+Theorem alias_redirect_scheme m a meth rule0 vals u :
+  alias_redirect_url m a meth rule0 vals = BOk u ->
+  exists r rest, In r (m_rules m) /\ r_endpoint r = r_endpoint rule0
+    /\ u = (if is_nil (build_scheme a (r_websocket r)) then [] else build_scheme a (r_websocket r) ++ [COLON]) ++ [SLASH; SLASH] ++ rest.
+Proof.
+  unfold alias_redirect_url, adapter_build.
+  destruct (pbuild m a (rules_for m (r_endpoint rule0)) vals (Some meth)) as [[[[r dp] path]|]| |] eqn:Ep; cbn [bbind]; try discriminate.
+  apply pbuild_sound in Ep. destruct Ep as [Hin Hb]. apply rules_for_in in Hin. destruct Hin as [H1 H2].
+  cbn [orb negb andb bbind]. intro H. injection H as <-. exists r. eexists. split; [exact H1|]. split; [exact H2|].
+  unfold build_scheme. repeat first [rewrite <- app_assoc | progress cbn [app]]. reflexivity.
+Qed.
+
+(* wss://example.com/old under Rule('/new', websocket=True) + Rule('/old', websocket=True, alias=True) -> wss://example.com/new *)
+Definition cx_ws_new : rule :=
+  {| r_idx := 0; r_endpoint := 3; r_dom := SLit []; r_segs := [SLit [110; 101; 119]]; r_tail := None; r_branch := false;
+     r_methods := None; r_strict_opt := None; r_merge_opt := None; r_websocket := true; r_alias := false; r_defaults := [] |}.
+Definition cx_ws_old : rule :=
+  {| r_idx := 1; r_endpoint := 3; r_dom := SLit []; r_segs := [SLit [111; 108; 100]]; r_tail := None; r_branch := false;
+     r_methods := None; r_strict_opt := None; r_merge_opt := None; r_websocket := true; r_alias := true; r_defaults := [] |}.
+Lemma ex_wss_alias :
+  router_match (mk_map [cx_ws_new; cx_ws_old])
+    {| a_scheme := WSS; a_server := a_server ex_adapter; a_script := [SLASH]; a_subdomain := None; a_query := [] |} [47; 111; 108; 100] GET
+  = RedirectTo (WSS ++ [COLON; SLASH; SLASH] ++ a_server ex_adapter ++ [47; 110; 101; 119]).
+Proof. vm_compute. reflexivity. Qed.
